@@ -111,7 +111,7 @@ TSub(r) ==
       \/ Enter(r) \/ ReqLock(r) \/ ConnectOk(r) \/ Established(r) \/ Activate(r)
       \/ Send(r) \/ (Ev.got /\ RecvHead(r)) \/ (Ev.bend = "full" /\ ReadAll(r)) \/ (Ev.bend = "partial" /\ Abandon(r)) \/ ConnRelease(r)
       \/ CancelDeliver(r) \/ ReleaseStream(r) \/ NativeCancelInShield(r)
-      \/ Enqueue(r) \/ Requeue(r) \/ MuxLateRefuse(r)
+      \/ Enqueue(r) \/ Requeue(r) \/ MuxLateRefuse(r) \/ EstabFailMark(r)
       \/ (pc[r] \in InExchange /\ cmux[asg[r]] /\ Collateral(r))) /\ UNCHANGED flag
   \/ Faulty(r) /\ flag' = [flag EXCEPT ![r] = "none"]
 
@@ -183,7 +183,13 @@ EndStep ==      \* commit: the model projects to what was logged
   /\ Ev.e = "Q" /\ Ev.r \in TReq =>
         \* (threads: the call returns a quantum or two after its last critical section - the lock
         \*  release is a pre-emption point; whoever has not returned by the End is checked there)
-        Chk("ret", IF Ev.ret = "" THEN (Threads \/ pc[Ev.r] \notin Terminal) ELSE pc[Ev.r] = RetPc(Ev.ret))
+        \* (async: closing a stream is a checkpoint AFTER the socket is closed - anyio's aclose() - so a call
+        \*  whose last critical section closed a connection is suspended once more before it returns)
+        \*  ... and a one-shot task cancellation (asyncio Task.cancel) that was requested while the call was
+        \*  suspended there is delivered at that checkpoint: all the work is done, the outcome is "cancelled")
+        Chk("ret", IF Ev.ret = "" THEN TRUE
+                   ELSE \/ pc[Ev.r] = RetPc(Ev.ret)
+                        \/ Ev.ret = "cancelled" /\ pc[Ev.r] = "done" /\ creq[Ev.r] = "native")
   /\ l' = l + 1 /\ k' = 0 /\ UNCHANGED cf
   \* HTTP/2 connection-level error is read off the availability the connection reports; with
   \* well-behaved peers it appears only on a connection that was given an injected fault
